@@ -62,7 +62,10 @@ pub enum point_conversion_form_t {
 
 pub struct BN_CTX;
 pub struct BIGNUM {
+    /// the low 384 bits, big-endian
     v: [u8; 48],
+    /// the number does not fit 384 bits (some higher byte of the input was non-zero)
+    wide: bool,
     freed: bool,
     owned_by_parent: bool,
 }
@@ -107,19 +110,28 @@ fn release() {
 // ---------------------------------------------------------------- BIGNUM
 pub unsafe fn BN_bin2bn(in_: *const u8, len: usize, ret: *mut BIGNUM) -> *mut BIGNUM {
     assert!(ret.is_null(), "model: BN_bin2bn is only used with ret == NULL");
-    if len > 48 {
-        // model bound: numbers wider than 384 bits are outside the model
+    if len > 128 {
+        // model bound: inputs longer than 128 bytes are outside the model
         #[cfg(kani)]
         kani::assume(false);
         return core::ptr::null_mut();
     }
+    // big-endian, any length: leading zero bytes are dropped (as BN_bin2bn does); a non-zero byte
+    // above the low 48 makes the number wider than 384 bits
     let mut v = [0u8; 48];
+    let mut wide = false;
     let mut i = 0;
     while i < len {
-        v[48 - len + i] = *in_.add(i);
+        let b = *in_.add(i);
+        let from_end = len - 1 - i;
+        if from_end < 48 {
+            v[47 - from_end] = b;
+        } else {
+            wide |= b != 0;
+        }
         i += 1;
     }
-    alloc(BIGNUM { v, freed: false, owned_by_parent: false })
+    alloc(BIGNUM { v, wide, freed: false, owned_by_parent: false })
 }
 fn sig_bytes(v: &[u8; 48]) -> usize {
     let mut n = 48;
@@ -137,10 +149,12 @@ fn sig_bytes(v: &[u8; 48]) -> usize {
 }
 pub unsafe fn BN_num_bytes(bn: *const BIGNUM) -> c_uint {
     assert!(!bn.is_null() && !(*bn).freed, "BN_num_bytes on a null or freed BIGNUM");
+    assert!(!(*bn).wide, "model: BN_num_bytes of a number wider than 384 bits is outside the model");
     sig_bytes(&(*bn).v) as c_uint
 }
 pub unsafe fn BN_bn2bin(in_: *const BIGNUM, out: *mut u8) -> usize {
     assert!(!in_.is_null() && !(*in_).freed, "BN_bn2bin on a null or freed BIGNUM");
+    assert!(!(*in_).wide, "model: BN_bn2bin of a number wider than 384 bits is outside the model");
     let n = sig_bytes(&(*in_).v);
     // fixed trip count (n is symbolic: a `while i < n` loop would unroll to the unwind bound)
     let mut i = 0;
@@ -201,6 +215,7 @@ pub unsafe fn EC_POINT_mul(group: *const EC_GROUP, r: *mut EC_POINT, n: *const B
     // the ideal function is queried on every path (its result is ignored for the zero scalar): a
     // path-dependent number of oracle queries would make the oracle's table length symbolic
     let c = public_of(&(*n).v);
+    let zero = zero && !(*n).wide;
     (*r).infinity = zero;
     if !zero {
         (*r).c = c;
@@ -271,7 +286,7 @@ pub unsafe fn EC_KEY_new() -> *mut EC_KEY {
     alloc(EC_KEY {
         group: false,
         has_priv: false,
-        priv_: BIGNUM { v: [0; 48], freed: false, owned_by_parent: true },
+        priv_: BIGNUM { v: [0; 48], wide: false, freed: false, owned_by_parent: true },
         has_pub: false,
         pub_: EC_POINT { infinity: true, c: [0; 49], freed: false, owned_by_parent: true },
         freed: false,
@@ -297,7 +312,7 @@ pub unsafe fn EC_KEY_set_private_key(key: *mut EC_KEY, priv_: *const BIGNUM) -> 
     if !(*key).group {
         return 0;
     }
-    if !scalar_ok(&(*priv_).v) {
+    if (*priv_).wide || !scalar_ok(&(*priv_).v) {
         // EC_R_INVALID_PRIVATE_KEY
         return 0;
     }
@@ -341,7 +356,15 @@ fn sig_of(pk: &[u8; 49], digest: &[u8]) -> [u8; 96] {
     b[..48].copy_from_slice(&r[..48]);
     b[48..].copy_from_slice(&s[..48]);
     #[cfg(kani)]
-    kani::assume(scalar_ok(&b[..48]) && scalar_ok(&b[48..]));
+    {
+        let mut t = [0u8; 48];
+        let mut i = 0;
+        while i < 48 {
+            t[i] = !b[48 + i];
+            i += 1;
+        }
+        kani::assume(scalar_ok(&b[..48]) && scalar_ok(&b[48..]) && scalar_ok(&t));
+    }
     b
 }
 pub unsafe fn ECDSA_size(key: *const EC_KEY) -> usize {
@@ -375,13 +398,19 @@ pub unsafe fn ECDSA_verify(_type: c_int, digest: *const u8, digest_len: usize, s
     if sig_len != 96 || !(*key).has_pub || (*key).pub_.infinity {
         return 0;
     }
+    // accepts the ideal signature and its (r, n - s) twin (same stand-in as the p384 model: the
+    // bitwise complement of the s half)
     let mut eq = true;
+    let mut eq2 = true;
     let mut i = 0;
     while i < 96 {
-        eq &= want[i] == *sig.add(i);
+        let w = want[i];
+        let w2 = if i >= 48 { !w } else { w };
+        eq &= w == *sig.add(i);
+        eq2 &= w2 == *sig.add(i);
         i += 1;
     }
-    if eq { 1 } else { 0 }
+    if eq || eq2 { 1 } else { 0 }
 }
 pub unsafe fn ECDSA_SIG_new() -> *mut ECDSA_SIG {
     alloc(ECDSA_SIG { r: core::ptr::null_mut(), s: core::ptr::null_mut(), freed: false })
